@@ -110,9 +110,9 @@ def _load_or_create_hmac_key(cache_dir: str) -> bytes:
     except FileExistsError:
         # Another process created the file first — read their key
         with open(key_path, "rb") as f:
-            key = f.read()
-        if len(key) == 32:
-            return key
+            existing = f.read()
+        if len(existing) == 32:
+            return existing
         # Fall through to overwrite if the winner wrote a bad key
     except OSError:
         pass
